@@ -321,6 +321,7 @@ def oracle(ctx, heavy=False):
     scale_and_dtype_oracle(ctx)
     round3_oracle(ctx)
     round4_oracle(ctx)
+    round5_oracle(ctx)
 
 
 def time_unit_oracle(ctx):
@@ -494,6 +495,30 @@ def round4_oracle(ctx):
             if not abs(float(yt[-1, 0]) - 1.0) <= 1e-12:
                 ctx.fail("oracle", "ivp:%s:pair-order" % meth, {"rhs": "(k+1) t^k", "k": kdeg, "tolerances": "so loose that [0, 1] is one step"},
                          float(yt[-1, 0]), "exactly 1 (a pair of order %d integrates t^k exactly for k <= %d)" % (exact_upto + 1, exact_upto))
+
+
+def round5_oracle(ctx):
+    """the forward integration is run with the FORWARD options: bck_options (another method, looser tolerances) configure the backward
+    pass only, so the returned trajectory is bitwise the one obtained without them (round-5 seed C07/13: the forward solver was
+    called with the backward configuration)"""
+    from xitorch.integrate import solve_ivp
+    ts = torch.linspace(0.0, 2.0, 5, dtype=DT)
+    y0 = torch.tensor([1.0, 0.0], dtype=DT)
+
+    def osc(t, y):
+        return torch.stack([y[1], -4.0 * y[0]])
+    for meth, fwd in (("rk45", {"rtol": 1e-9, "atol": 1e-10}), ("rk23", {"rtol": 1e-7, "atol": 1e-9}), ("rk4", {}), ("rk38", {}), ("euler", {})):
+        ref = solve_ivp(osc, ts, y0, method=meth, **fwd)
+        for bck in ({"rtol": 1e-2, "atol": 1e-2}, {"method": "euler"}, {"method": "rk23", "rtol": 1e-1, "atol": 1e-1}):
+            ctx.count(("bck-options-leave-forward-alone", meth, tuple(sorted(bck))), nontrivial=True)
+            try:
+                yt = solve_ivp(osc, ts, y0, method=meth, bck_options=dict(bck), **fwd)
+            except Exception as e:
+                ctx.fail("oracle", "ivp:%s:bck-options:exception" % meth, {"bck_options": bck}, repr(e)[:200], "a trajectory")
+                continue
+            if not torch.equal(yt, ref):
+                ctx.fail("oracle", "ivp:%s:bck-options-change-the-forward-result" % meth, {"fwd_options": fwd, "bck_options": bck},
+                         {"max_difference": float((yt - ref).abs().max())}, "bitwise the trajectory without bck_options")
 
 
 def search(ctx):
